@@ -210,6 +210,118 @@ fn permutations(n: usize) -> Vec<Vec<usize>> {
     out
 }
 
+// ------------------------------------------------------------------------------------------------
+// structured generator: random DAGs of 8..=48 nodes with fan-in up to 24 (node i's children are a generated subset of
+// earlier nodes), delivered in a generated arrival order (uniform shuffles, reversed, chunk-reversed) to one register
+// op by op and to a second one half by ops and half by merge; model compared after every arrival.
+
+#[derive(Clone, Debug, Hash, serde::Serialize, serde::Deserialize)]
+pub struct DagCase {
+    /// per node: (fan-in wish, selector bits for which earlier nodes)
+    nodes: Vec<(u8, u64)>,
+    /// arrival order material
+    order: Vec<u16>,
+    mode: u8,
+}
+
+fn dag_strategy() -> proptest::strategy::BoxedStrategy<DagCase> {
+    use proptest::prelude::*;
+    (proptest::collection::vec((prop_oneof![4 => 0u8..4, 1 => 4u8..25], any::<u64>()), 8..=48), proptest::collection::vec(any::<u16>(), 48..=48), 0u8..4)
+        .prop_map(|(nodes, order, mode)| DagCase { nodes, order, mode })
+        .boxed()
+}
+
+fn check_dag(c: &DagCase, stats: &mut Stats) -> Result<(), Fail> {
+    let reg0: MerkleReg<Vec<u8>> = MerkleReg::new();
+    let n = c.nodes.len();
+    let mut nodes: Vec<Node<Vec<u8>>> = Vec::new();
+    let mut hashes: Vec<Hash> = Vec::new();
+    for (i, (fan, sel)) in c.nodes.iter().enumerate() {
+        let mut ch = BTreeSet::new();
+        if i > 0 {
+            let want = (*fan as usize).min(i);
+            let mut x = *sel;
+            for _ in 0..want {
+                // biased to recent nodes (heads), sometimes far back
+                let j = if x & 1 == 0 { i - 1 - ((x >> 1) as usize % i.min(4)) } else { (x >> 1) as usize % i };
+                ch.insert(hashes[j]);
+                x = x.rotate_right(7) ^ 0x9e3779b97f4a7c15;
+            }
+        }
+        let node = reg0.write(vec![(i >> 8) as u8, i as u8, 0x5A, 0xA5], ch);
+        hashes.push(node.hash());
+        nodes.push(node);
+    }
+    let metas: Vec<OpMeta> = nodes
+        .iter()
+        .enumerate()
+        .map(|(i, nd)| OpMeta { id: i, author: 0, actor: None, seq: i, deps: 0, sem: Sem::Merkle { hash: hashes[i], children: nd.children.iter().copied().collect() }, call: String::new() })
+        .collect();
+    // arrival order
+    let mut order: Vec<usize> = (0..n).collect();
+    match c.mode {
+        0 => order.reverse(),
+        1 => {
+            for ch in order.chunks_mut(5) {
+                ch.reverse();
+            }
+        }
+        _ => {
+            for i in (1..n).rev() {
+                let j = idx(c.order[i % c.order.len()].wrapping_add(i as u16 * 977), i + 1);
+                order.swap(i, j);
+            }
+        }
+    }
+    let mut canonical: MerkleReg<Vec<u8>> = MerkleReg::new();
+    for nd in &nodes {
+        canonical.apply(nd.clone());
+    }
+    let mut reg: MerkleReg<Vec<u8>> = MerkleReg::new();
+    let mut a: MerkleReg<Vec<u8>> = MerkleReg::new();
+    let mut b: MerkleReg<Vec<u8>> = MerkleReg::new();
+    let mut know: Bits = 0;
+    let mut max_orphans = 0usize;
+    for (k, &i) in order.iter().enumerate() {
+        reg.apply(nodes[i].clone());
+        know |= bit(i);
+        let m = MerkleModel::build(&metas, know);
+        max_orphans = max_orphans.max(m.received.len() - m.visible.len());
+        stats.observations += 1;
+        compare(&reg, &m, &format!("random DAG ({n} nodes), after arrival #{k} (node {i})"))?;
+        if k % 2 == 0 {
+            a.apply(nodes[i].clone())
+        } else {
+            b.apply(nodes[i].clone())
+        }
+    }
+    if reg != canonical {
+        return Err(Fail::new(format!("random DAG ({n} nodes): arrival order {order:?} gives a state != the in-order state")));
+    }
+    let mut ab = a.clone();
+    ab.merge(b.clone());
+    let mut ba = b;
+    ba.merge(a);
+    if ab != canonical || ba != canonical {
+        return Err(Fail::new(format!("random DAG ({n} nodes): merging the two interleaved halves != the in-order state")));
+    }
+    let fan_in = nodes.iter().map(|nd| nd.children.len()).max().unwrap_or(0);
+    if fan_in >= 16 {
+        stats.class("a node with 16+ children");
+    }
+    if max_orphans >= 10 {
+        stats.class("10+ orphans at once");
+    }
+    if max_orphans >= 3 && fan_in >= 2 {
+        stats.cur_nontrivial = true;
+        stats.class("nontrivial");
+    }
+    if stats.trace {
+        stats.samples.push(json!({"nodes": n, "max_fan_in": fan_in, "max_orphans_at_once": max_orphans, "arrival_order": order}));
+    }
+    Ok(())
+}
+
 pub fn property() -> Property {
     let mut jobs: Vec<Box<dyn JobT>> = Vec::new();
     jobs.push(Box::new(EJob {
@@ -220,6 +332,7 @@ pub fn property() -> Property {
     let w = Weights { edit: 36, deliver: 34, redeliver: 8, merge: 12, snapshot: 4, merge_snapshot: 6, save_restore: 0, probe: 0 };
     let pc = PlanCfg::new(w).steps(8, 34).editors(2, 4).observers(0, 1);
     jobs.push(mk_job("MerkleReg/any-order/ops+dups+merges", 18000, 200_000, pc, Ctx::new(Disc::Any).newest(), check_merkle).floor("nontrivial", 0.05).boxed());
+    jobs.push(job("MerkleReg/random DAGs up to 48 nodes (fan-in up to 24) x generated arrival orders", 20000, 300_000, dag_strategy, |c: &DagCase, st: &mut Stats| check_dag(c, st)).floor("nontrivial", 0.3).boxed());
     Property {
         id: "C15",
         rule: "(a) Plans of write(value, children) at several replicas with children drawn from the author's heads (all / a subset), non-head known nodes, nodes written elsewhere and not yet received (orphan at origin) and children that never arrive; unique 4-byte values (distinct hashes); nodes delivered in ANY order (newest first biased) with duplicates, merges, stale merges. After every step: read().hashes() = visible nodes no visible node lists as child, num_nodes / num_orphans, node(h) for every received node, children(h), parents(h) vs the least-fixpoint model of the received set; equal received sets => ==; writing on top of all heads read => read() is exactly the new node; at the end every replica == a fresh register fed the same nodes in another order. (b) bounded-exhaustive: every DAG shape up to 5 nodes x every arrival order. Non-trivial = some node was an orphan for >=1 step and later became visible and the DAG has fan-in or fan-out >= 2; distinct = distinct Plan hash / (shape, order).".into(),
